@@ -139,7 +139,8 @@ func instantiate(t string) string {
 
 var baseProbes = [][2]string{
 	{"GET", "/base/p1"}, {"POST", "/base/p1:act"}, {"GET", "/base/any/zz"}, {"PUT", "/base/any/zz"},
-	{"GET", "/vs.Base/B1"}, {"POST", "/vs.Base/B2"}, {"PATCH", "/vs.Base/B3"},
+	{"GET", "/vs.Base/B1"}, {"POST", "/vs.Base/B2"}, {"PATCH", "/vs.Base/B3"}, {"GET", "/base/leaf/p1"},
+
 	// only requests the base service owns (literal-led): a new wildcard rule may
 	// legitimately start answering paths that used to be 404
 }
@@ -149,13 +150,23 @@ func baseService() ServiceSpec {
 		{Name: "B1", Rule: httpRule("GET", "/base/{s}")},
 		{Name: "B2", Rule: func() *annotations.HttpRule { r := httpRule("POST", "/base/{s}:act"); r.Body = "*"; return r }()},
 		{Name: "B3", Rule: httpRule("*", "/base/any/{n.s}")},
+		{Name: "B4", Rule: httpRule("GET", "/base/leaf/{s}")},
 	}}
 }
 
-func probeDigest(rm *rmux) (string, []string) {
+// neighbours of the base leaves: not owned by the base service, so an accepted rule may claim
+// them, but a rejected registration must leave them exactly as they were
+var neighbourProbes = [][2]string{
+	{"POST", "/base/p1"}, {"GET", "/base/p1/sub"}, {"GET", "/base/p1:act"}, {"PUT", "/base/p1:act/sub"}, {"GET", "/bad/x"},
+	{"POST", "/base/leaf/p1"}, {"GET", "/base/leaf/p1/sub"}, {"DELETE", "/base/leaf/p1:v"},
+}
+
+func probeDigest(rm *rmux) (string, []string) { return probeDigestOf(rm, baseProbes) }
+
+func probeDigestOf(rm *rmux, probes [][2]string) (string, []string) {
 	h := sha256.New()
 	var all []string
-	for _, p := range baseProbes {
+	for _, p := range probes {
 		o := rm.lookup(p[0], p[1])
 		b, _ := json.Marshal(o)
 		h.Write(b)
@@ -197,6 +208,7 @@ func attempt(onto string, newSvc ServiceSpec, routedReq [2]string) (out, errText
 		}
 	}
 	pb, before := probeDigest(rm)
+	nb, nbefore := probeDigestOf(rm, neighbourProbes)
 	func() {
 		defer func() {
 			if p := recover(); p != nil {
@@ -213,6 +225,16 @@ func attempt(onto string, newSvc ServiceSpec, routedReq [2]string) (out, errText
 		return out, errText, pb, "", false
 	}
 	pa, after := probeDigest(rm)
+	na, nafter := probeDigestOf(rm, neighbourProbes)
+	if out == "reject" && na != nb {
+		pa += "+neighbours" // a rejected registration changed a route next to the base routes
+		for i := range nbefore {
+			if nbefore[i] != nafter[i] {
+				errText += " | neighbour changed: " + nbefore[i] + " ==> " + nafter[i]
+				break
+			}
+		}
+	}
 	if pa != pb {
 		for i := range before {
 			if before[i] != after[i] {
@@ -280,6 +302,16 @@ func runRegCase(c RegCase, seed int64) RegEv {
 			rule = withPattern(rule, "*", "/base/{s}")
 		case "concreteOnStar":
 			rule = withPattern(rule, "GET", "/base/any/{n.s}")
+		case "leafThenBad":
+			// a valid binding on an existing leaf (other verb), then an invalid additional binding: all or nothing
+			rule = withPattern(rule, "POST", "/base/leaf/{s}")
+			rule.AdditionalBindings = append(rule.AdditionalBindings, httpRule("GET", "/bad/{no_such_field}"))
+		case "belowLeafThenBad":
+			rule = withPattern(rule, "GET", "/base/leaf/{s}/sub")
+			rule.AdditionalBindings = append(rule.AdditionalBindings, httpRule("GET", "/bad/{no_such_field}"))
+		case "verbLeafThenBad":
+			rule = withPattern(rule, "GET", "/base/{s}:act")
+			rule.AdditionalBindings = append(rule.AdditionalBindings, httpRule("GET", "/bad/{no_such_field}"))
 		}
 		if c.Conflict != "none" && c.Conflict != "implicit" {
 			req[1] = ""
